@@ -16,7 +16,7 @@ MIN_CASES_PER_SHARD = 50
 CASE_TIMEOUT = 40
 RULE = ("one case = generated map x trace (incl. observations beyond segment ends, on nodes, zero-length roads) x configuration (all families, "
         "non-emitting on in 50 %, widths; max_dist / max_dist_init / min_prob_norm random or set to values observed in a first pass) x history; "
-        "25 % of the cases are placed on the sphere (street-scale latitude-longitude map with parameters in metres). Non-trivial = best path with "
+        "20 % of the planar edge-state cases have linked parallel edges; 25 % of the cases are placed on the sphere (street-scale latitude-longitude map with parameters in metres). Non-trivial = best path with "
         "an interior and a clamped emitting edge projection; distinct = hash of the case")
 ANCHORS = [("leuvenmapmatching/matcher/base.py", "BaseMatcher.do_stop"),
            ("leuvenmapmatching/matcher/base.py", "BaseMatching.next"),
